@@ -36,6 +36,7 @@ func (d *datadogRequestDec) Decode() error {
 		d.Hostname = ""
 		d.Message = ""
 		d.Service = ""
+		d.SourceType = ""
 		d.TsMs = 0
 		return d.DecodeEntry(dec)
 	})
